@@ -100,7 +100,7 @@ func (v4pr Vector4PropertyReader) buildBinary(element Element, endian binary.Byt
 		}
 	}
 
-	if xOffset > -1 && yOffset > -1 && zOffset > -1 && v4pr.IgnorableW {
+	if v4pr.IgnorableW {
 		return Vector3PropertyReader{
 			ModelAttribute: v4pr.ModelAttribute,
 			PlyPropertyX:   v4pr.PlyPropertyX,
@@ -189,7 +189,7 @@ func (v4pr Vector4PropertyReader) buildAscii(element Element) asciiPropertyReade
 		}
 	}
 
-	if xOffset > -1 && yOffset > -1 && zOffset > -1 && v4pr.IgnorableW {
+	if v4pr.IgnorableW {
 		return Vector3PropertyReader{
 			ModelAttribute: v4pr.ModelAttribute,
 			PlyPropertyX:   v4pr.PlyPropertyX,
